@@ -120,4 +120,13 @@ CHECKS = {
              "thorough": {"checks": 10000, "shards": 4, "timeout": "60m"}},
         ],
     },
+    "C06": {
+        "level": "fault_enumeration",
+        "assumptions": EXPLORATION_ASSUMPTIONS + ["faults are injected by the scripted socket (EOF, read error, write error, at the k-th call or on release) and by cancelling the connect context; coinciding endings are released from a barrier or staggered by drawn yields",
+                                                  "quiescence = no goroutine with a frame in a *Conn method"],
+        "legs": [
+            {"test": "TestC06", "quick": {"checks": 600, "timeout": "20m"},
+             "thorough": {"checks": 6000, "shards": 4, "timeout": "90m"}},
+        ],
+    },
 }
